@@ -143,3 +143,111 @@ Proof.
   - rewrite rep_of_set. cbn [n_rep]. destruct (N.eqb q p) eqn:E; [|reflexivity].
     apply N.eqb_eq in E. subst q. unfold rep_of. now rewrite F.
 Qed.
+
+Lemma set_node_twice l p a b : set_node (set_node l p a) p b = set_node l p b.
+Proof.
+  induction l as [|[q m] l IH]; cbn [set_node].
+  - now rewrite N.eqb_refl.
+  - destruct (N.eqb q p) eqn:E; cbn [set_node]; rewrite E; [reflexivity|now rewrite IH].
+Qed.
+
+Lemma count_in_res s res' ns' ni no lk' pd ms :
+  count_in (mkPS (nodes s) ni no (max_in s) (max_out s) ns' lk' res' (ronly s) pd ms)
+  = N.of_nat (cnt (f_in res') (nodes s)).
+Proof. reflexivity. Qed.
+Lemma count_out_res s res' ns' ni no lk' pd ms :
+  count_out (mkPS (nodes s) ni no (max_in s) (max_out s) ns' lk' res' (ronly s) pd ms)
+  = N.of_nat (cnt (f_out res') (nodes s)).
+Proof. reflexivity. Qed.
+
+(* reserving a peer can only lower the counts *)
+Lemma cnt_reserve_le_in s p : NoDup (keys (nodes s)) ->
+  (cnt (f_in (p :: reserved s)) (nodes s) <= cnt (f_in (reserved s)) (nodes s))%nat.
+Proof.
+  intros ND.
+  assert (X : forall q m, q <> p -> f_in (reserved s) q m = f_in (p :: reserved s) q m).
+  { intros q m Hq. apply f_in_other. rewrite memN_cons. apply N.eqb_neq in Hq. now rewrite Hq. }
+  destruct (find_node (nodes s) p) as [n|] eqn:Fd.
+  - pose proof (cnt_ext_present _ _ (nodes s) p n X ND Fd) as E.
+    assert (V : f_in (p :: reserved s) p n = false) by (unfold f_in; rewrite memN_cons, N.eqb_refl; apply andb_false_r).
+    rewrite V in E. cbn [b2n] in E. lia.
+  - rewrite (cnt_ext_absent _ _ (nodes s) p X Fd). lia.
+Qed.
+Lemma cnt_reserve_le_out s p : NoDup (keys (nodes s)) ->
+  (cnt (f_out (p :: reserved s)) (nodes s) <= cnt (f_out (reserved s)) (nodes s))%nat.
+Proof.
+  intros ND.
+  assert (X : forall q m, q <> p -> f_out (reserved s) q m = f_out (p :: reserved s) q m).
+  { intros q m Hq. apply f_out_other. rewrite memN_cons. apply N.eqb_neq in Hq. now rewrite Hq. }
+  destruct (find_node (nodes s) p) as [n|] eqn:Fd.
+  - pose proof (cnt_ext_present _ _ (nodes s) p n X ND Fd) as E.
+    assert (V : f_out (p :: reserved s) p n = false) by (unfold f_out; rewrite memN_cons, N.eqb_refl; apply andb_false_r).
+    rewrite V in E. cbn [b2n] in E. lia.
+  - rewrite (cnt_ext_absent _ _ (nodes s) p X Fd). lia.
+Qed.
+
+Lemma reserve_fields s p :
+  nodes (reserve s p) = nodes s /\ reserved (reserve s p) = p :: reserved s /\
+  max_in (reserve s p) = max_in s /\ max_out (reserve s p) = max_out s /\ ronly (reserve s p) = ronly s /\
+  pending (reserve s p) = pending s /\ msgs (reserve s p) = msgs s.
+Proof.
+  destruct s. unfold reserve, add_noslot_pure, with_reserved, with_noslot, with_in, with_out. cbn.
+  repeat match goal with |- context [match ?x with _ => _ end] => destruct x; cbn end; repeat split.
+Qed.
+
+Lemma L_reserve s p : NoDup (keys (nodes s)) -> L s -> L (reserve s p).
+Proof.
+  intros ND (A & B). destruct (reserve_fields s p) as (E1 & E2 & E3 & E4 & _).
+  unfold L, count_in, count_out. rewrite E1, E3, E4.
+  change (length (filter (slot_in (reserve s p)) (nodes s))) with (cnt (fun q n => slot_in (reserve s p) (q, n)) (nodes s)).
+  change (length (filter (slot_out (reserve s p)) (nodes s))) with (cnt (fun q n => slot_out (reserve s p) (q, n)) (nodes s)).
+  rewrite (cnt_ext (fun q n => slot_in (reserve s p) (q, n)) (f_in (p :: reserved s))) by (intros; unfold slot_in, f_in; cbn [fst snd]; now rewrite E2).
+  rewrite (cnt_ext (fun q n => slot_out (reserve s p) (q, n)) (f_out (p :: reserved s))) by (intros; unfold slot_out, f_out; cbn [fst snd]; now rewrite E2).
+  pose proof (cnt_reserve_le_in s p ND). pose proof (cnt_reserve_le_out s p ND).
+  rewrite count_in_cnt in A. rewrite count_out_cnt in B. lia.
+Qed.
+
+Lemma unreserve_fields s p :
+  nodes (unreserve s p) = nodes s /\ reserved (unreserve s p) = removeN p (reserved s) /\
+  max_in (unreserve s p) = max_in s /\ max_out (unreserve s p) = max_out s /\ ronly (unreserve s p) = ronly s /\
+  pending (unreserve s p) = pending s /\ msgs (unreserve s p) = msgs s.
+Proof.
+  destruct s. unfold unreserve, remove_noslot_pure, with_reserved, with_noslot, with_in, with_out. cbn.
+  repeat match goal with |- context [match ?x with _ => _ end] => destruct x; cbn end; repeat split.
+Qed.
+
+(* un-reserving raises a count only for a connected peer, by one *)
+Lemma L_unreserve c0 s p :
+  G c0 s -> cfg_ok s -> L s -> memN p (reserved s) = true -> at_capacity s p = false -> L (unreserve s p).
+Proof.
+  intros HG C HL M CAP. pose proof (g_nodup _ _ HG) as ND.
+  pose proof (L_num_in c0 s HG C HL) as NI. pose proof (L_num_out c0 s HG C HL) as NO.
+  destruct HL as (A & B). destruct (unreserve_fields s p) as (E1 & E2 & E3 & E4 & _).
+  unfold L, count_in, count_out. rewrite E1, E3, E4.
+  change (length (filter (slot_in (unreserve s p)) (nodes s))) with (cnt (fun q n => slot_in (unreserve s p) (q, n)) (nodes s)).
+  change (length (filter (slot_out (unreserve s p)) (nodes s))) with (cnt (fun q n => slot_out (unreserve s p) (q, n)) (nodes s)).
+  rewrite (cnt_ext (fun q n => slot_in (unreserve s p) (q, n)) (f_in (removeN p (reserved s)))) by (intros; unfold slot_in, f_in; cbn [fst snd]; now rewrite E2).
+  rewrite (cnt_ext (fun q n => slot_out (unreserve s p) (q, n)) (f_out (removeN p (reserved s)))) by (intros; unfold slot_out, f_out; cbn [fst snd]; now rewrite E2).
+  assert (XI : forall q m, q <> p -> f_in (reserved s) q m = f_in (removeN p (reserved s)) q m).
+  { intros q m Hq. apply f_in_other. rewrite memN_removeN. apply N.eqb_neq in Hq. rewrite N.eqb_sym, Hq. reflexivity. }
+  assert (XO : forall q m, q <> p -> f_out (reserved s) q m = f_out (removeN p (reserved s)) q m).
+  { intros q m Hq. apply f_out_other. rewrite memN_removeN. apply N.eqb_neq in Hq. rewrite N.eqb_sym, Hq. reflexivity. }
+  rewrite count_in_cnt in A, NI. rewrite count_out_cnt in B, NO.
+  destruct (find_node (nodes s) p) as [n|] eqn:Fd.
+  - pose proof (cnt_ext_present _ _ (nodes s) p n XI ND Fd) as EI.
+    pose proof (cnt_ext_present _ _ (nodes s) p n XO ND Fd) as EO.
+    assert (VI : f_in (reserved s) p n = false) by (unfold f_in; rewrite M; apply andb_false_r).
+    assert (VO : f_out (reserved s) p n = false) by (unfold f_out; rewrite M; apply andb_false_r).
+    assert (WI : f_in (removeN p (reserved s)) p n = mstate_eqb (n_st n) Ingoing)
+      by (unfold f_in; rewrite memN_removeN, N.eqb_refl; apply andb_true_r).
+    assert (WO : f_out (removeN p (reserved s)) p n = mstate_eqb (n_st n) Outgoing)
+      by (unfold f_out; rewrite memN_removeN, N.eqb_refl; apply andb_true_r).
+    rewrite VI, WI in EI. rewrite VO, WO in EO.
+    unfold at_capacity in CAP. rewrite Fd in CAP.
+    destruct (n_st n); cbn [mstate_eqb b2n] in EI, EO.
+    + lia.
+    + apply N.leb_gt in CAP. lia.
+    + apply N.leb_gt in CAP. lia.
+    + lia.
+  - rewrite <- (cnt_ext_absent _ _ (nodes s) p XI Fd). rewrite <- (cnt_ext_absent _ _ (nodes s) p XO Fd). lia.
+Qed.
